@@ -10,7 +10,7 @@ def sh(cmd, cwd=None, timeout=3000):
     except subprocess.TimeoutExpired:
         return 124, "timeout"
 
-names = sorted(os.path.basename(d) for d in glob.glob('/verif/seeded/*')) if len(sys.argv) < 2 else sys.argv[1:]
+names = sorted(os.path.basename(d) for d in glob.glob('/verif/seeded/C*')) if len(sys.argv) < 2 else sys.argv[1:]
 rc, out = sh("git -C /repo status --porcelain --untracked-files=no")
 assert out.strip() == "", "/repo has uncommitted changes"
 summary = []
